@@ -935,6 +935,12 @@ class Scheduler:
                 # sched_op is not part of the sub-schedule - skip
                 continue
 
+            # An upscaling Op reads IFM row (OFM row // upscale): its stripes have to start on multiples of the upscaling
+            # factor, also when it is the last Op of the sub-schedule and gets the final stripe as it is
+            upscale = to_upscale(sched_op.resampling_mode)
+            if stripe.height % upscale != 0 and stripe.height < sched_op.ofm.shape.height:
+                stripe = stripe.with_height(stripe.height + upscale - stripe.height % upscale)
+
             # Create a cost entry with the new stripe
             cost = sched_op.create_scheduler_info(self.nng, stripe)
 
